@@ -1314,15 +1314,15 @@ class BaseTracer(_InternalBaseTracer):
         self._saved_expr_stmt_ret: Optional[Any] = None
         self._saved_slice: Optional[Any] = None
 
+    # the value itself is kept by emit_event._emit_event (per thread, after all tracers have been served);
+    # these two registrations remain so that the events exist for every tracer
     @register_raw_handler(TraceEvent.after_stmt, reentrant=True)
     def _save_expr_stmt_ret_for_later(self, ret_expr: Any, *_, **__) -> None:
-        self._saved_expr_stmt_ret = ret_expr
+        return None
 
     @register_raw_handler(TraceEvent._load_saved_expr_stmt_ret, reentrant=True)
     def _load_saved_expr_stmt_ret(self, *_, **__) -> Any:
-        ret = self._saved_expr_stmt_ret
-        self._saved_expr_stmt_ret = None
-        return ret
+        return None
 
     @register_raw_handler(
         (
